@@ -58,6 +58,19 @@ func c13BuildTypes(pos, bad string) []ggql.Type {
 // UTF-8): the load must be refused naming the offender, and the well-formed set itself must be accepted.
 func c13BuiltNames(c *run.Ctx) int {
 	bads := []string{"-name", "$name", ".name", "@name", " name", "-", "#", "na-me", "na me", "name-", "name!", "9name", "__name", "né", "na\x00me", "\xffname", "名前", "nаme", "name "}
+	// every single-byte character that is no letter, digit or underscore, in the middle of a name (the ones sitting between
+	// the letter ranges of ASCII - [ \\ ] ^ and the back quote - and DEL among them), and every digit in front
+	for b := 0; b < 256; b++ {
+		ch := byte(b)
+		letter := ch == '_' || ('a' <= ch && ch <= 'z') || ('A' <= ch && ch <= 'Z')
+		digit := '0' <= ch && ch <= '9'
+		if !letter && !digit {
+			bads = append(bads, "na"+string([]byte{ch})+"me")
+		}
+		if digit {
+			bads = append(bads, string([]byte{ch})+"name")
+		}
+	}
 	done := 0
 	root := ggql.NewRoot(nil)
 	var gerr error
